@@ -225,7 +225,11 @@ def handleE2E : Handler := fun s =>
       (if gs.any (fun g => g.codepoints.any (· ≥ 0x10000)) then ["supplementary-cp"] else []) ++
       (if nDerived > 0 then ["derived"] else []) ++
       (if topo then [] else ["TOPO-HYPOTHESIS-FALSE"]) ++
-      (if cpConflict then ["cp-conflict"] else [])
+      (if cpConflict then ["cp-conflict"] else []) ++
+      (match fin, s.field? "result" with
+       | some fo, some (.atom "ok" :: _) =>
+         if allCompiled { glyphs := gs, prelim, preferSimple } fo then [] else ["shadow-compiled-by-schedule"]
+       | _, _ => [])
     let nt := expNames.length ≥ 3 && expNames.length < names.length && d.order.isSome
     match s.field? "result" with
     | some (.atom "err" :: msg) =>
@@ -254,7 +258,12 @@ def handleE2E : Handler := fun s =>
           | some fo, some cm =>
             let mPost := postNames rename fo.order
             if !topo then (false, "the depth-sorted order is not topological for non-export references")
-            else if !allCompiled { glyphs := gs, prelim, preferSimple } fo then (false, "model: a final glyph is not compiled, implementation builds")
+            -- `allCompiled = false` (a made glyph carries the name of a non-exported source glyph, defect F-C06-1):
+            -- since fix 9762529 the outcome depends on the schedule. If the completion of that glyph's IR job is
+            -- handled before glyph order is launched, its back-end job is skipped and the build panics (the usual
+            -- order); if it is handled after glyph order has started, the refinement is deferred, sees the made
+            -- (exported) glyph and compiles it. The job-set model admits both outcomes; a successful build is
+            -- compared like any other (tag `shadow-compiled-by-schedule`).
             else if mPost != fnames then (false, s!"post: model={mPost} font={fnames}")
             else if !samePairs (dedupPairs (cm.filter (·.2 != 0))) (f.cmap.filter (·.2 != 0)) then
               (false, s!"cmap: model={cm} font={f.cmap}")
